@@ -36,6 +36,7 @@ type params struct {
 	Du       time.Duration // attack duration (0 = none)
 	Wait     time.Duration // fixed pacer wait (duration scenarios)
 	ClockHit bool          // targeter / transport read the (hooked) clock
+	Trunc    bool          // attacker built with MaxBody(1): the rest of the 2-byte body is only drained
 }
 
 func (p params) name() string {
@@ -54,6 +55,9 @@ func (p params) name() string {
 	}
 	if p.Du > 0 {
 		s += fmt.Sprintf(",du=%d,wait=%d", p.Du, p.Wait)
+	}
+	if p.Trunc {
+		s += ",maxbody=1"
 	}
 	s += fmt.Sprintf(",clock=%d", p.Mode)
 	return s
@@ -91,6 +95,7 @@ func (b *clockBody) Read(p []byte) (int, error) {
 func (b *clockBody) Close() error { return nil }
 
 type world struct {
+	id         string // property being checked: only its own oracles are evaluated (plus engine-level deadlock/panic)
 	p          params
 	began      time.Duration
 	started    int
@@ -192,6 +197,9 @@ func (w *world) main() {
 		opts = append(opts, vegeta.Client(&http.Client{Transport: fakeRT{w}}))
 	}
 	opts = append(opts, vegeta.Workers(p.W0), vegeta.MaxWorkers(p.M))
+	if p.Trunc {
+		opts = append(opts, vegeta.MaxBody(1))
+	}
 	atk := vegeta.NewAttacker(opts...)
 	w.began = vsched.ClockPeek()
 	res := atk.Attack(w.targeter, pacer{w}, p.Du, "atk")
@@ -251,6 +259,12 @@ func (w *world) invariant(s *vsched.Sched) string {
 			}
 		}
 	}
+	if w.id != "C02" && w.id != "C03" {
+		return ""
+	}
+	if w.id == "C03" {
+		return w.invariantC03(s, n)
+	}
 	if n > w.started {
 		return fmt.Sprintf("C02: %d results delivered but only %d hits started", n, w.started)
 	}
@@ -268,12 +282,33 @@ func (w *world) invariant(s *vsched.Sched) string {
 	if s.Last.Kind == vsched.KClose && w.resultsID != 0 && s.Last.Obj == w.resultsID && w.started != n {
 		return fmt.Sprintf("C02: results channel closed while %d of %d started hits had not delivered", w.started-n, w.started)
 	}
+	return ""
+}
+
+// workerCount counts the worker goroutines of the attack: system threads spawned
+// by Attack itself (children of the main thread before the attacker) or by
+// the attacker loop (its children). Goroutines a worker may spawn are not workers.
+func (w *world) workerCount(s *vsched.Sched) int {
+	n := 0
+	for _, t := range s.AllThreads() {
+		if !t.Sys || t.ID == w.attackerID {
+			continue
+		}
+		parent := t.ID[:strings.LastIndex(t.ID, ".")]
+		if parent == "0" || parent == w.attackerID {
+			n++
+		}
+	}
+	return n
+}
+
+func (w *world) invariantC03(s *vsched.Sched, n int) string {
 	// C03: cap
 	if uint64(w.started-n) > w.p.M {
 		return fmt.Sprintf("C03: %d hits in flight with max-workers=%d", w.started-n, w.p.M)
 	}
 	if !w.p.DNS && w.attackerID != "" {
-		workers := s.SysCount() - 1
+		workers := w.workerCount(s)
 		if uint64(workers) > w.p.M {
 			return fmt.Sprintf("C03: %d worker goroutines spawned with max-workers=%d", workers, w.p.M)
 		}
@@ -294,7 +329,9 @@ func (w *world) invariant(s *vsched.Sched) string {
 func (w *world) end(s *vsched.Sched, r *vsched.Result) (string, string) {
 	for _, t := range s.AllThreads() {
 		if !t.Done() {
-			return "C02: goroutine " + t.ID + " left behind", "leak"
+			if v := "C02: goroutine " + t.ID + " left behind"; w.own(v) {
+				return v, "leak"
+			}
 		}
 	}
 	p := w.p
@@ -310,27 +347,39 @@ func (w *world) end(s *vsched.Sched, r *vsched.Result) (string, string) {
 	}
 	outcome := fmt.Sprintf("started=%d delivered=%v stops=%d/%d pace=%d", w.started, seqs, trues, len(w.stops), len(w.pace))
 	if w.misuse != "" {
-		return "C02: " + w.misuse, outcome
+		if v := "C02: " + w.misuse; w.own(v) {
+			return v, outcome
+		}
 	}
 	if len(w.delivered) != w.started {
-		return fmt.Sprintf("C02: %d hits started but %d results delivered", w.started, len(w.delivered)), outcome
+		if v := fmt.Sprintf("C02: %d hits started but %d results delivered", w.started, len(w.delivered)); w.own(v) {
+			return v, outcome
+		}
 	}
 	sorted := append([]int(nil), seqs...)
 	sort.Ints(sorted)
 	for i, q := range sorted {
 		if q != i {
-			return fmt.Sprintf("C02: sequence numbers %v are not 0..%d", sorted, len(sorted)-1), outcome
+			if v := fmt.Sprintf("C02: sequence numbers %v are not 0..%d", sorted, len(sorted)-1); w.own(v) {
+				return v, outcome
+			}
 		}
 	}
 	if w.closes != 1 {
-		return fmt.Sprintf("C02: close observed %d times", w.closes), outcome
+		if v := fmt.Sprintf("C02: close observed %d times", w.closes); w.own(v) {
+			return v, outcome
+		}
 	}
 	if trues > 1 {
-		return fmt.Sprintf("C02: %d Stop() calls reported that they initiated the stop", trues), outcome
+		if v := fmt.Sprintf("C02: %d Stop() calls reported that they initiated the stop", trues); w.own(v) {
+			return v, outcome
+		}
 	}
 	for _, x := range w.delivered {
 		if x.Attack != "atk" {
-			return "C02: result without the attack name", outcome
+			if v := "C02: result without the attack name"; w.own(v) {
+				return v, outcome
+			}
 		}
 	}
 	goes := 0
@@ -340,28 +389,42 @@ func (w *world) end(s *vsched.Sched, r *vsched.Result) (string, string) {
 		}
 	}
 	if w.started > goes {
-		return fmt.Sprintf("C04: %d hits started but the pacer released only %d", w.started, goes), outcome
+		if v := fmt.Sprintf("C04: %d hits started but the pacer released only %d", w.started, goes); w.own(v) {
+			return v, outcome
+		}
 	}
 	if p.Cause == "pacer" && !p.Adv && p.Du == 0 && w.started != p.N {
-		return fmt.Sprintf("C02: pacer released %d hits but %d started", p.N, w.started), outcome
+		if v := fmt.Sprintf("C02: pacer released %d hits but %d started", p.N, w.started); w.own(v) {
+			return v, outcome
+		}
 	}
 	// C04: pacer protocol
 	for i, pr := range w.pace {
 		if pr.Hits != uint64(i) {
-			return fmt.Sprintf("C04: Pace call %d received hits=%d", i, pr.Hits), outcome
+			if v := fmt.Sprintf("C04: Pace call %d received hits=%d", i, pr.Hits); w.own(v) {
+				return v, outcome
+			}
 		}
 		if i > 0 && w.pace[i-1].Stop {
-			return "C04: pacer consulted again after it said stop", outcome
+			if v := "C04: pacer consulted again after it said stop"; w.own(v) {
+				return v, outcome
+			}
 		}
 		if p.Mode != vsched.ClockFrozen {
 			if i > 0 && pr.Elapsed < w.pace[i-1].Elapsed {
-				return fmt.Sprintf("C04: elapsed went backwards at Pace call %d", i), outcome
+				if v := fmt.Sprintf("C04: elapsed went backwards at Pace call %d", i); w.own(v) {
+					return v, outcome
+				}
 			}
 			if pr.Elapsed != pr.Clock-w.began {
-				return fmt.Sprintf("C04: Pace call %d got elapsed=%d but %d had elapsed since the start", i, pr.Elapsed, pr.Clock-w.began), outcome
+				if v := fmt.Sprintf("C04: Pace call %d got elapsed=%d but %d had elapsed since the start", i, pr.Elapsed, pr.Clock-w.began); w.own(v) {
+					return v, outcome
+				}
 			}
 			if p.Du > 0 && pr.Elapsed > p.Du {
-				return fmt.Sprintf("C04: pacer consulted at elapsed=%d, after the duration %d", pr.Elapsed, p.Du), outcome
+				if v := fmt.Sprintf("C04: pacer consulted at elapsed=%d, after the duration %d", pr.Elapsed, p.Du); w.own(v) {
+					return v, outcome
+				}
 			}
 		}
 	}
@@ -382,7 +445,9 @@ func (w *world) end(s *vsched.Sched, r *vsched.Result) (string, string) {
 		sort.Slice(st, func(i, j int) bool { return st[i] < st[j] })
 		for k, t := range st {
 			if k >= len(rel) || t < rel[k] {
-				return fmt.Sprintf("C04: hit #%d started at t=%d before the pacer released it (release times %v, start times %v)", k, t, rel, st), outcome
+				if v := fmt.Sprintf("C04: hit #%d started at t=%d before the pacer released it (release times %v, start times %v)", k, t, rel, st); w.own(v) {
+					return v, outcome
+				}
 			}
 		}
 		if p.Du > 0 {
@@ -393,7 +458,9 @@ func (w *world) end(s *vsched.Sched, r *vsched.Result) (string, string) {
 				}
 			}
 			if late > 1 {
-				return fmt.Sprintf("C04: %d hits released after the deadline", late), outcome
+				if v := fmt.Sprintf("C04: %d hits released after the deadline", late); w.own(v) {
+					return v, outcome
+				}
 			}
 		}
 		outcome += fmt.Sprintf(" rel=%v st=%v", rel, st)
@@ -406,30 +473,46 @@ func (w *world) end(s *vsched.Sched, r *vsched.Result) (string, string) {
 		for i, x := range bySeq {
 			ts := x.Timestamp.Sub(base)
 			if i > 0 && !bySeq[i-1].Timestamp.Before(x.Timestamp) {
-				return fmt.Sprintf("C05: seq %d has timestamp %d, not later than seq %d with %d", x.Seq, ts, bySeq[i-1].Seq, bySeq[i-1].Timestamp.Sub(base)), outcome
+				if v := fmt.Sprintf("C05: seq %d has timestamp %d, not later than seq %d with %d", x.Seq, ts, bySeq[i-1].Seq, bySeq[i-1].Timestamp.Sub(base)); w.own(v) {
+					return v, outcome
+				}
 			}
 			if ts < w.began {
-				return fmt.Sprintf("C05: seq %d timestamp %d is before the attack's start %d", x.Seq, ts, w.began), outcome
+				if v := fmt.Sprintf("C05: seq %d timestamp %d is before the attack's start %d", x.Seq, ts, w.began); w.own(v) {
+					return v, outcome
+				}
 			}
 			if x.Latency < 0 {
-				return fmt.Sprintf("C05: negative latency %d", x.Latency), outcome
+				if v := fmt.Sprintf("C05: negative latency %d", x.Latency); w.own(v) {
+					return v, outcome
+				}
 			}
 			if !x.End().Equal(x.Timestamp.Add(x.Latency)) {
-				return "C05: End() != Timestamp+Latency", outcome
+				if v := "C05: End() != Timestamp+Latency"; w.own(v) {
+					return v, outcome
+				}
 			}
 			for _, rr := range w.rts {
 				if rr.Seq == fmt.Sprint(x.Seq) {
 					if !(ts < rr.Entry) {
-						return fmt.Sprintf("C05: seq %d timestamp %d is not before its transport entry %d", x.Seq, ts, rr.Entry), outcome
+						if v := fmt.Sprintf("C05: seq %d timestamp %d is not before its transport entry %d", x.Seq, ts, rr.Entry); w.own(v) {
+							return v, outcome
+						}
 					}
 					if x.Latency < rr.Exit-rr.Entry {
-						return fmt.Sprintf("C05: seq %d latency %d is less than the transport time %d", x.Seq, x.Latency, rr.Exit-rr.Entry), outcome
+						if v := fmt.Sprintf("C05: seq %d latency %d is less than the transport time %d", x.Seq, x.Latency, rr.Exit-rr.Entry); w.own(v) {
+							return v, outcome
+						}
 					}
 					if ts+x.Latency < rr.Exit {
-						return fmt.Sprintf("C05: seq %d ends at %d before its transport returned at %d", x.Seq, ts+x.Latency, rr.Exit), outcome
+						if v := fmt.Sprintf("C05: seq %d ends at %d before its transport returned at %d", x.Seq, ts+x.Latency, rr.Exit); w.own(v) {
+							return v, outcome
+						}
 					}
 					if rr.BodyEOF != 0 && ts+x.Latency < rr.BodyEOF {
-						return fmt.Sprintf("C05: seq %d ends at %d before its response body was read to the end at %d", x.Seq, ts+x.Latency, rr.BodyEOF), outcome
+						if v := fmt.Sprintf("C05: seq %d ends at %d before its response body was read to the end at %d", x.Seq, ts+x.Latency, rr.BodyEOF); w.own(v) {
+							return v, outcome
+						}
 					}
 				}
 			}
@@ -443,9 +526,13 @@ func (w *world) end(s *vsched.Sched, r *vsched.Result) (string, string) {
 	return "", outcome
 }
 
-func scenario(p params) vsched.Scenario {
+// own reports whether a violation message belongs to the property this run checks
+// (messages carry the id of the property whose clause they quote).
+func (w *world) own(msg string) bool { return strings.HasPrefix(msg, w.id+":") }
+
+func scenario(id string, p params) vsched.Scenario {
 	return vsched.Scenario{Name: p.name(), Mode: p.Mode, Make: func() vsched.Instance {
-		w := &world{p: p}
+		w := &world{id: id, p: p}
 		return vsched.Instance{Main: w.main, Invariant: w.invariant, End: w.end}
 	}}
 }
@@ -483,7 +570,7 @@ func runPlans(t *testing.T, id string, plans []plan) {
 		if wk > int(pl.p.M) {
 			wk = int(pl.p.M)
 		}
-		jobs[i] = vsched.Job{Sc: scenario(pl.p), Cfg: pl.cfg, Weight: pl.p.N*4 + int(pl.p.M) + wk + st*3 + b*3 + int(pl.p.Mode)*4}
+		jobs[i] = vsched.Job{Sc: scenario(id, pl.p), Cfg: pl.cfg, Weight: pl.p.N*4 + int(pl.p.M) + wk + st*3 + b*3 + int(pl.p.Mode)*4}
 	}
 	if rp := os.Getenv("VERIF_REPLAY"); rp != "" && !vsched.IsChild() {
 		replay(t, id, rp, plans)
@@ -587,7 +674,7 @@ func replay(t *testing.T, id, path string, plans []plan) {
 	}
 	for _, pl := range plans {
 		if pl.p.name() == f.Detail.Scenario {
-			v, o, tr := vsched.Replay(scenario(pl.p), f.Detail.Choices)
+			v, o, tr := vsched.Replay(scenario(id, pl.p), f.Detail.Choices)
 			for _, l := range tr {
 				fmt.Println("  ", l)
 			}
@@ -742,6 +829,8 @@ func c05Plans() []plan {
 	add(params{W0: 1, M: 2, N: 2, Cause: "pacer"}, ev.Pick(3, -1))
 	add(params{W0: 1, M: 3, N: 3, Cause: "pacer"}, ev.Pick(2, 3))
 	add(params{W0: 2, M: 2, N: 2, Cause: "tgterr", ErrAt: 0}, ev.Pick(3, -1))
+	add(params{W0: 2, M: 2, N: 2, Cause: "pacer", Trunc: true}, ev.Pick(2, 3))
+	add(params{W0: 1, M: 1, N: 2, Cause: "pacer", Trunc: true}, -1)
 	if ev.Thorough() {
 		add(params{W0: 3, M: 3, N: 4, Cause: "pacer"}, 2)
 	}
